@@ -166,6 +166,12 @@ def worker(batch, rec):
                     continue   # float16 range
                 if dt in ("f4", "i4") and (np.max(np.abs(exp)) > 3e38 or abs(a1 / a2) > 3e38):
                     continue
+                # results or factors below the normal range of the result's float type are rounded to subnormals/zero by
+                # IEEE arithmetic itself (0.5 yK -> YK in float32 is 5e-49 -> 0.0): not decidable with a relative bound
+                tiny = {"f8": 2.3e-308, "i8": 2.3e-308, "f4": 1.2e-38, "i4": 1.2e-38, "i2": 6.2e-5}[dt]
+                nz = np.abs(exp[exp != 0])
+                if abs(a1 / a2) < tiny or (nz.size and np.min(nz) < tiny):
+                    rec.count("convert-discarded-underflow"); continue
                 for route in ("to", "in_units", "to_value", "convert_to_units", "scalar.to", "scalar.convert_to_units", "view.convert_to_units"):
                     x = unyt.unyt_array(np.array(reads, dtype=dt), u1)
                     try:
